@@ -159,8 +159,11 @@ CMonEffect(m, ev) ==
                    !.intr = m.intr \/ ev.fault \in Interrupts]
     [] ev.e = "close" ->
          IF Known(m, ev.s) /\ m.socks[ev.s].st # "detached"
+           (* an ordinary error inside close() is swallowed by the client: the descriptor is gone and the call goes on; *)
+           (* only an interruption delivered there makes the call fail                                               *)
            THEN [m EXCEPT !.socks = [m.socks EXCEPT ![ev.s].st = "closed"],
-                          !.hard = m.hard \/ IsFault(ev.fault)]
+                          !.hard = m.hard \/ ev.fault \in Interrupts,
+                          !.intr = m.intr \/ ev.fault \in Interrupts]
            ELSE m
     [] ev.e = "closeintr" ->
          IF Known(m, ev.s) THEN [m EXCEPT !.socks = [m.socks EXCEPT ![ev.s].intrclose = TRUE, ![ev.s].faulted = TRUE],
